@@ -8,6 +8,48 @@
 # rule: how cases are generated and what makes one non-trivial / distinct (copied into evidence)
 
 PROPS = {
+    "C09": {
+        "level": "exploration",
+        "rule": "TestC09Identities: two go-git replicas and a bare remote share 1..3 identities created by the real API; rapid "
+                "generates a planned part that reaches a chosen triple (common prefix p in 1..4, local suffix a in 0..3, remote "
+                "suffix b in 0..3) followed by free mutate(name/login/email/avatar with valid, blank and unsafe values)/push/pull "
+                "actions; pulls go through identity.MergeAll or the RepoCache. Model = chains of version ids (sha256 of the stored "
+                "blobs, independent reader). Oracle per pull and identity: remote extends local => updated and local == remote; "
+                "local equal/ahead => nothing, unchanged; diverged => invalid, unchanged; every remote identity gets a report; the id "
+                "never changes; chains are prefix-monotone; invalid values are refused at commit and leave the history untouched, "
+                "accepted ones round-trip; the cache view equals git after the merge. TestC09CraftedChains: chains with decreasing / "
+                "dropped clocks, no name and login, unsafe characters served by a remote are refused in every local situation. "
+                "Non-trivial: a pull with remote-extends, diverged, or equal/ahead with prefix >= 2. Distinct: relation + prefix "
+                "multiset (+ operator x position x situation for crafted chains).",
+        "assumptions": ["avatar URL validity is not asserted (the statement does not list it)"],
+        "tests": [{"name": "TestC09Identities", "quick": 120, "shards_quick": 3, "thorough": 600, "shards": 16},
+                  {"name": "TestC09CraftedChains", "quick": 600, "thorough": 3000, "shards": 2}],
+    },
+    "C07": {
+        "level": "exploration",
+        "rule": "A catalogue of structural mutation operators (100 for bug histories: tree entries, pack JSON, single elements "
+                "and fields with type confusion, commits, refs; 48 for identity histories) is applied to valid histories written "
+                "by the real API, at a chosen commit/version and element; the result is served as raw git objects under "
+                "refs/remotes/origin/{bugs,identities} and crossed with the local situation {absent, equal, ahead, behind, "
+                "diverged}. TestC07Catalogue enumerates operator x situation x position class systematically; the rapid tests "
+                "vary base histories, positions and the merge layer (dag / RepoCache). Oracle: stage 1 - the same data under a "
+                "local ref makes bug.Read / identity.ReadLocal return an error (never panic); stage 2 - MergeAll never crashes, "
+                "MUST-REJECT operators are reported invalid, refs (local, remote-tracking, identities), local operation lists, "
+                "cache view and clocks are unchanged by refused data; accepted (MAY) data yields a readable valid entity. "
+                "Thorough adds native coverage-guided fuzzing of the ops blob and the identity version blob. "
+                "Non-trivial: mutated entity differs from the original and the local situation is not 'absent'. "
+                "Distinct: operator x position class x situation x layer.",
+        "exhaustive": False,
+        "exhaustive_note": "TestC07Catalogue enumerates catalogue x situations x position classes completely on one base history; the rapid and fuzz parts sample",
+        "assumptions": ["MUST-REJECT only for deviations from the documented format, a validation rule or a ref/id mismatch; benign "
+                        "deviations the reader tolerates (unknown fields or tree entries, duplicated clock entries) only need 'no crash, no damage'",
+                        "panics are probed through the synchronous read path first because MergeAll/ReadAll run in goroutines whose panics cannot be recovered"],
+        "tests": [{"name": "TestC07Catalogue", "quick": None, "thorough": None},
+                  {"name": "TestC07HostileBugs", "quick": 1500, "thorough": 6000, "shards": 8},
+                  {"name": "TestC07HostileIdentities", "quick": 800, "thorough": 4000, "shards": 4},
+                  {"name": "FuzzOpsBlob", "fuzztime": 150},
+                  {"name": "FuzzIdentityVersion", "fuzztime": 100}],
+    },
     "C06": {
         "level": "fault_enumeration",
         "rule": "TestC06CrashPoints: rapid generates write scenarios (new bug single/multi-author, append 1..5 operations + commit, "
@@ -133,6 +175,21 @@ PROPS = {
 
 # Text for MANIFEST.json, per claimed property.
 MANIFEST_TEXT = {
+    "C09": {
+        "technique": "stateful property-based testing (rapid) of mutate/push/pull identity histories vs a model of version-id chains; crafted hostile chains vs the stated rejection rules",
+        "level_text": "Model-based: the expected merge verdict is computed from the prefix relation of independently read version chains for "
+                      "every generated (prefix, local suffix, remote suffix) situation, through the entity API and the cache.",
+        "design_ref": "DESIGN.md §4 C09",
+        "level_note": "Trusted: internal/ondisk chain reader; version ids embed the wall clock, so ids differ between runs but relations do not.",
+    },
+    "C07": {
+        "technique": "structured mutation testing of on-disk histories (operator catalogue x positions x local situations, rapid-varied) with no-crash / reported-invalid / frame-condition oracles; native coverage-guided fuzzing of the JSON blobs in the thorough tier",
+        "level_text": "Hostile inputs are generated structurally (every operator of a catalogue at every position class in every local "
+                      "situation, plus rapid-varied bases) and byte-level (go fuzz); the oracle demands rejection without crash and an "
+                      "unchanged local state. Exploration: the catalogue is finite and enumerated, the byte-level space is sampled.",
+        "design_ref": "DESIGN.md §4 C07",
+        "level_note": "Trusted: the MUST/MAY classification of operators; raw objects under remote-tracking refs stand for what a fetch delivers.",
+    },
     "C06": {
         "technique": "fault injection with exhaustive enumeration of abort points per rapid-generated write scenario; fault-injecting filesystem for torn clock files",
         "level_text": "For every generated write scenario each prefix of its sequence of storage mutations is executed and followed by a "
